@@ -82,7 +82,9 @@ fn mix_set(k: usize, pos: usize) -> IpfixSet {
         // data for an id nobody defines
         7 => IpfixSet::Data(999, mix_body(40 + pos, 0)),
         8 => IpfixSet::Tpl(vec![mix_tpl(3)], 0),
-        _ => IpfixSet::Tpl(vec![mix_tpl(4)], 0),
+        9 => IpfixSet::Tpl(vec![mix_tpl(4)], 0),
+        // an options template under the id the plain templates use: the id changes kind
+        _ => IpfixSet::OptTpl(vec![IpfixOptTpl { id: 256, scope_count: 1, fields: vec![fs(149, 2), fs(41, 2), fs(42, 4)] }], 0),
     }
 }
 
@@ -200,13 +202,13 @@ pub fn streams(tier: &str) -> Vec<StreamGen> {
         };
                 v.push(stream_gen("ipfix-template-records-per-set", 3 * 2 * 3 * 2 * 4, move |i| Some(mk(i))));
     }
-    // 5. set mixes: all sequences of <= 3 (thorough 5) sets over a 10-set menu x prior context
+    // 5. set mixes: all sequences of <= 3 (thorough 5) sets over an 11-set menu x prior context
     {
-        let maxlen = if thorough { 6 } else { 3 };
-        let nl = list_count(10, maxlen);
+        let maxlen = if thorough { 5 } else { 3 };
+        let nl = list_count(11, maxlen);
         let mk = move |i: u64| -> Vec<Vec<u8>> {
             let d = digits(i, &[nl, 2]);
-            let seq = list_at(10, maxlen, d[0]);
+            let seq = list_at(11, maxlen, d[0]);
             let sets: Vec<IpfixSet> = seq.iter().enumerate().map(|(pos, k)| mix_set(*k, pos)).collect();
             let mut calls = vec![];
             if d[1] == 1 {
@@ -242,7 +244,7 @@ pub fn run(tier: &str) -> i32 {
         prop: "C05".into(),
         tier: tier.into(),
         level: "model_checking",
-        rule: "every index of each space is a conformant IPFIX stream (1..3 calls on one fresh parser) built from finite menus: every IE 0..=520(+extras, + enterprise variants) x supported width x value menu x delivery x padding; variable-length IEs x every pair of consecutive record lengths from {0,1,2,254,255,300} x short/long prefix; all lists of class representatives of length <= 2 (thorough 5); options templates; 1..=3 template records per set; all set sequences of length <= 3 (thorough 6) over a 10-set menu incl. data for an undefined id. Each call's result is compared with the RFC 7011 reference decode (flattened to (field index, name, value)); an outcome is distinct by the hash of the canonical results".into(),
+        rule: "every index of each space is a conformant IPFIX stream (1..3 calls on one fresh parser) built from finite menus: every IE 0..=520(+extras, + enterprise variants) x supported width x value menu x delivery x padding; variable-length IEs x every pair of consecutive record lengths from {0,1,2,254,255,300} x short/long prefix; all lists of class representatives of length <= 2 (thorough 5); options templates; 1..=3 template records per set; all set sequences of length <= 3 (thorough 6) over an 11-set menu incl. data for an undefined id. Each call's result is compared with the RFC 7011 reference decode (flattened to (field index, name, value)); an outcome is distinct by the hash of the canonical results".into(),
         bounds: json!({"history_depth": 3, "multi_field_list_len": if thorough {5} else {2}, "set_sequence_len": if thorough {6} else {3}, "records_per_set": "1..=3", "padding": "0..=3 and shorter than the minimal record"}),
         assumptions: vec!["IE number -> (name, value class) is the library's own table (pinned by its lookup snapshot tests)".into(), "template withdrawals are not generated".into()],
         trusted_base: vec!["refmodel::ref_ipfix_sets (RFC 7011 reference decoder) and refmodel::decode".into()],
